@@ -39,6 +39,7 @@ type cliCase struct {
 	OutFile   int        `json:"out_file"`     // 0 standard output; -o <file>: 1 a new file, 2 an existing (stale) file
 	LogFile   int        `json:"log_file"`     // concat -l: 0 none, 1 a new file, 2 an existing file
 	StaleOut  bool       `json:"stale_out"`    // split / extract: the output files exist already
+	GFF       bool       `json:"gff"`          // extract: the blocks are given as a GFF3 annotation (--gff)
 	Start     int        `json:"start"`
 	Len       int        `json:"len"`
 	Step      int        `json:"step"`
@@ -260,6 +261,7 @@ func genCLI(t *rapid.T, cmds []string) cliCase {
 		c.LogFile = 1 + uni(t, 2, "stalelog")
 	}
 	c.StaleOut = uni(t, 3, "staleout") == 0
+	c.GFF = (c.Cmd == "extract" || c.Cmd == "extract-ref") && uni(t, 3, "gff") == 0
 	return c
 }
 
@@ -692,9 +694,37 @@ func checkCLI(dir string, c cliCase) (o pbt.Outcome, err error) {
 				}
 				lines = append(lines, strings.Join(f, "\t"))
 			}
+			if c.GFF {
+				// the same blocks as a GFF3 annotation: one gene per sub-alignment (Name = its name), one CDS per
+				// block with Parent = the gene, coordinates 1-based inclusive, strand in column 7
+				lines = []string{"chr1\tverif\tregion\t1\t" + fmt.Sprint(l) + "\t.\t+\t.\tID=chr1"}
+				for gi, b := range c.Blocks {
+					strand := "+"
+					if b.Strand == "-" {
+						strand = "-"
+					}
+					lo, hi := b.Starts[0], b.Ends[0]
+					for k := range b.Starts {
+						if b.Starts[k] < lo {
+							lo = b.Starts[k]
+						}
+						if b.Ends[k] > hi {
+							hi = b.Ends[k]
+						}
+					}
+					lines = append(lines, fmt.Sprintf("chr1\tverif\tgene\t%d\t%d\t.\t%s\t.\tID=g%d;Name=%s", lo+1, hi, strand, gi, b.Name))
+					for k := range b.Starts {
+						lines = append(lines, fmt.Sprintf("chr1\tverif\tCDS\t%d\t%d\t.\t%s\t0\tID=cds%d.%d;Parent=g%d", b.Starts[k]+1, b.Ends[k], strand, gi, k, gi))
+					}
+				}
+				o.Class("%s:gff", c.Cmd)
+			}
 			cf := cli.TempFile(dir, ".coord", strings.Join(lines, "\n")+"\n")
 			outDir, _ = os.MkdirTemp(dir, "extract")
 			args = []string{"extract", "-i", in, "--coordinates", cf, "-o", outDir}
+			if c.GFF {
+				args = append(args, "--gff")
+			}
 			ref, known := rowByName(rows, c.Ref)
 			p := nonGap(ref.Seq)
 			if c.Cmd == "extract-ref" {
@@ -844,6 +874,37 @@ func checkCLI(dir string, c cliCase) (o pbt.Outcome, err error) {
 	// content must be replaced); the output files of split / extract may exist already too
 	outPath, logPath := "", ""
 	severalFiles := c.Cmd == "subseq-step" || (multi && (strings.HasPrefix(c.Cmd, "subseq") || strings.HasPrefix(c.Cmd, "subsites")))
+	var outFiles []string // -o with several alignments or windows: the documented family of file names, in order
+	if c.OutFile > 0 && severalFiles && !mustFailAny(exps) && !anyOpenAny(exps) {
+		tmp := cli.TempFile(dir, "", "")
+		os.Remove(tmp)
+		base := tmp + "out" // no other scratch file starts with this
+		ext := ".out"
+		for k, e := range exps {
+			windows := 1
+			if c.Cmd == "subseq-step" && len(inputs[k]) > 0 {
+				windows = len(e.Outs[0]) / len(inputs[k])
+			}
+			for w := 0; w < windows; w++ {
+				n := base
+				if k > 0 {
+					n += fmt.Sprintf("_al%d", k)
+				}
+				if w > 0 {
+					n += fmt.Sprintf("_sub%d", w)
+				}
+				outFiles = append(outFiles, n+ext)
+			}
+		}
+		for _, f := range outFiles {
+			if c.OutFile == 2 {
+				cli.StaleFile(f, 40)
+			}
+			defer os.Remove(f)
+		}
+		args = append(args, "-o", base+ext)
+		o.Class("output:-o family of files (_al<i>, _sub<j>)")
+	}
 	if c.OutFile > 0 && exp.Files == nil && outDir == "" && !severalFiles {
 		outPath = cli.TempFile(dir, ".out", "")
 		os.Remove(outPath)
@@ -887,6 +948,26 @@ func checkCLI(dir string, c cliCase) (o pbt.Outcome, err error) {
 			return o, fmt.Errorf("goalign %s: output requested in a file, but standard output holds\n%s", strings.Join(args, " "), firstLines(r.Stdout, 6))
 		}
 		stdout = string(b)
+	}
+	if len(outFiles) > 0 && r.Exit == 0 {
+		// every alignment / window in its own file: <name>.ext, <name>_sub<j>.ext, <name>_al<i>.ext,
+		// <name>_al<i>_sub<j>.ext (help text of subseq); read in that order they are the stream of results
+		var all strings.Builder
+		for _, f := range outFiles {
+			b, e := os.ReadFile(f)
+			if e != nil {
+				return o, fmt.Errorf("goalign %s: expected output file %s: %v", strings.Join(args, " "), filepath.Base(f), e)
+			}
+			all.Write(b)
+		}
+		if strings.TrimSpace(r.Stdout) != "" {
+			return o, fmt.Errorf("goalign %s: output requested in files, but standard output holds\n%s", strings.Join(args, " "), firstLines(r.Stdout, 6))
+		}
+		stdout = all.String()
+		found, _ := filepath.Glob(strings.TrimSuffix(outFiles[0], ".out") + "*")
+		if len(found) != len(outFiles) {
+			return o, fmt.Errorf("goalign %s: wrote %d files %v, expected %d", strings.Join(args, " "), len(found), found, len(outFiles))
+		}
 	}
 	show := func() string {
 		d := gen.Show(rows)
@@ -1024,6 +1105,24 @@ func checkCLI(dir string, c cliCase) (o pbt.Outcome, err error) {
 		return o, fmt.Errorf("%s: %d unexpected extra rows in the output: %s", show(), len(got)-pos, gen.Show(got[pos:]))
 	}
 	return o, nil
+}
+
+func mustFailAny(exps []expect) bool {
+	for _, e := range exps {
+		if e.Err || e.AltErr {
+			return true
+		}
+	}
+	return false
+}
+
+func anyOpenAny(exps []expect) bool {
+	for _, e := range exps {
+		if e.Any || len(e.Outs) != 1 {
+			return true
+		}
+	}
+	return false
 }
 
 func firstLines(s string, n int) string {
